@@ -68,6 +68,8 @@ def build_pencil(g, lam, dtype, batchA, batchM, mkappa, affine=True, structure="
         mu[0] = 1.0 / rk
         mu[-1] = rk
         Qm = rand_unitary(g, (), n, dtype)
+        if structure == "diag":
+            Qm = torch.eye(n, dtype=dtype)
         M0 = herm((Qm * mu.to(dtype)) @ ct(Qm))
         S = herm((Qm * mu.sqrt().to(dtype)) @ ct(Qm))
         scal = pick(g, list(mvals), batchM) if affine else torch.ones(tuple(batchM), dtype=torch.float64)
@@ -89,10 +91,9 @@ def build_pencil(g, lam, dtype, batchA, batchM, mkappa, affine=True, structure="
     else:
         a = torch.ones(tuple(batchA), dtype=torch.float64)
         b = torch.zeros(tuple(batchA), dtype=torch.float64)
-    if structure == "diag":
+    Q = rand_unitary(g, batchA, n, dtype)
+    if structure == "diag":      # exactly diagonal A and M: bit-exact repeated eigenvalues, exactly singular shifted matrices
         Q = torch.eye(n, dtype=dtype).expand(*batchA, n, n)
-    else:
-        Q = rand_unitary(g, batchA, n, dtype)
     lam_b = a[..., None] * lam_t        # (*BA, n); the shift b is added as b*M0 (or b*I)
     C = herm((Q * lam_b.to(dtype)[..., None, :]) @ ct(Q))
     if S is not None:
